@@ -781,6 +781,22 @@ def install(ip):
                 ip.raise_exc("TypeError")
         if len(items) <= 1:
             return PList(items)
+        if len(items) <= 4:
+            # insertion sort with one path split per comparison; the comparison is the interpreter's own `<` on the keys (ints: arithmetic;
+            # byte strings: an uninterpreted total order - see bytes_lt), so every ordering the keys admit is explored
+            keys = [ip.call(key, [x], {}) if key is not None else x for x in items]
+            order = []
+            for idx in range(len(items)):
+                pos = len(order)
+                for j, other in enumerate(order):
+                    if ip.path.branch(ip.truth_term(_sort_lt(ip, keys[idx], keys[other]))):
+                        pos = j
+                        break
+                order.insert(pos, idx)
+            out = [items[i] for i in order]
+            if k.get("reverse", False):
+                out.reverse()
+            return PList(out)
         raise Unsupported("sorted() of symbolic items")
 
     def _minmax(ip, a, k, is_max):
@@ -791,7 +807,16 @@ def install(ip):
             ip.raise_exc("ValueError", "empty sequence")
         key = k.get("key")
         if key is not None:
-            raise Unsupported("min/max with key")
+            # the FIRST element with the extreme key wins (CPython); one path split per comparison of keys
+            if len(items) > 8:
+                raise Unsupported("min/max with key over more than 8 items")
+            best, best_key = items[0], ip.call(key, [items[0]], {})
+            for x in items[1:]:
+                kx = ip.call(key, [x], {})
+                c = ip.truth_term(ip.compare_values(ast.Gt() if is_max else ast.Lt(), kx, best_key))
+                if ip.path.branch(c):
+                    best, best_key = x, kx
+            return best
         best = items[0]
         for x in items[1:]:
             c = ip.compare_values(ast.Gt() if is_max else ast.Lt(), x, best)
@@ -870,6 +895,18 @@ def install(ip):
                 return ip.do_getattr(a[0], a[1])
             except PyRaise as pr:
                 if pr.exc.cls is ip.exc_classes["AttributeError"]:
+                    return a[2]
+                raise
+            except Unsupported:
+                # a name the engine has no model for: when CPython's own type of this value has no such attribute either, getattr
+                # yields the default (plain tuples have no `.ip`, ...)
+                v = a[0]
+                pytype = (tuple if isinstance(v, tuple) else bytes if isinstance(v, bytes) or (isinstance(v, Sym) and v.ty == "bytes")
+                          else str if isinstance(v, str) or (isinstance(v, Sym) and v.ty == "str")
+                          else bool if isinstance(v, bool) or (isinstance(v, Sym) and v.ty == "bool")
+                          else int if isinstance(v, int) or (isinstance(v, Sym) and v.ty == "int")
+                          else list if isinstance(v, PList) and v.kind != "deque" else dict if isinstance(v, PDict) and v.kind == "dict" else None)
+                if pytype is not None and not hasattr(pytype, a[1]):
                     return a[2]
                 raise
         return ip.do_getattr(a[0], a[1])
@@ -1066,8 +1103,28 @@ def install(ip):
     mod("traceback", format_exception=Builtin("format_exception", lambda ip, a, k: PList([])),
         print_exc=Builtin("print_exc", lambda ip, a, k: None),
         format_exc=Builtin("format_exc", lambda ip, a, k: ""))
-    mod("os", urandom=Builtin("urandom", lambda ip, a, k: _urandom(ip, a[0])), path=Opaque("os.path"),
-        environ=PDict({}))
+    # file system: predicates are nondeterministic, destructive calls are recorded as `fs.delete` events (what they delete is not modelled)
+    def _fs_pred(ip, a, k):
+        return ip.fresh("fs_pred", "bool")
+
+    def _fs_delete(name):
+        def f(ip, a, k):
+            ev = ip.event("fs.delete", [name, *a], k)
+            if getattr(ip, "on_effect", None) is not None:
+                ip.on_effect(ev)
+            return None
+        return f
+    ospath = mod("os.path", isfile=Builtin("os.path.isfile", _fs_pred), exists=Builtin("os.path.exists", _fs_pred),
+                 isdir=Builtin("os.path.isdir", _fs_pred))
+    mod("os", urandom=Builtin("urandom", lambda ip, a, k: _urandom(ip, a[0])), path=ospath, environ=PDict({}),
+        **{n: Builtin("os." + n, _fs_delete("os." + n)) for n in ("remove", "unlink", "rmdir", "removedirs", "truncate", "rename", "replace")})
+    def _sqlite_connect(ip, a, k):
+        if "sqlite3.connect" in ip.ext_models:
+            return ip.call(ip.ext_models["sqlite3.connect"](), list(a), dict(k))
+        raise Unsupported("call of unmodelled external sqlite3.connect")
+    mod("sqlite3", connect=Builtin("sqlite3.connect", _sqlite_connect), Error=ip.exc_classes["sqlite3.Error"],
+        Connection=BuiltinClass("Connection"), Cursor=BuiltinClass("Cursor"))
+    mod("shutil", **{n: Builtin("shutil." + n, _fs_delete("shutil." + n)) for n in ("rmtree", "move")})
     mod("enum", Enum=BuiltinClass("Enum"), IntEnum=BuiltinClass("IntEnum"), IntFlag=BuiltinClass("IntFlag"))
     mod("dataclasses", dataclass=Opaque("dataclasses.dataclass"), field=Opaque("dataclasses.field"),
         fields=Opaque("dataclasses.fields"), is_dataclass=Opaque("dataclasses.is_dataclass"))
@@ -1539,6 +1596,8 @@ def array_attr(ip, a, name):
             if ip.path.branch(z3.Length(b) % isz != 0):
                 ip.raise_exc("ValueError", "bytes length not a multiple of item size")
             nbytes = ip.path.unique_int(z3.Length(b))
+            if nbytes is None and not a.lst.symbolic:
+                nbytes = _split_small_length(ip, z3.Length(b), 16)      # a slice that may be clipped by the end of the buffer
             if nbytes is not None and not a.lst.symbolic:
                 a.lst = PList(list(a.lst.items) + _array_items_from_bytes(ip, a.code, b, nbytes // isz), elty=a.elty)
                 return None
@@ -1645,6 +1704,34 @@ class PIter:
         rest = self.items[self.pos:]
         self.pos = len(self.items)
         return rest
+
+
+def _split_small_length(ip, ln, bound):
+    """When the full path condition bounds the length term by `bound`, split the path over its possible values and return the value on
+    this path; None when the length is not bounded like that."""
+    s1 = ip.path._fresh_solver(2000000)
+    s1.add(z3.Or(ln > bound, ln < 0))
+    if s1.check() != z3.unsat:
+        return None
+    for cand in range(0, bound + 1):
+        if ip.path.branch(ln == cand):
+            return cand
+    from .values import PathAbort
+    raise PathAbort("infeasible")
+
+
+def _sort_lt(ip, x, y):
+    """x < y for sorting: ints/reals arithmetically; byte strings and str through an uninterpreted strict total order (irreflexive,
+    asymmetric and total on the compared pair: exactly one of x<y, y<x, x==y) - lexicographic order itself is not modelled"""
+    if isinstance(x, Sym) and x.ty in ("bytes", "str") or isinstance(y, Sym) and y.ty in ("bytes", "str") \
+            or (isinstance(x, (bytes, str)) and isinstance(y, (bytes, str))):
+        ty = "bytes" if (isinstance(x, bytes) or (isinstance(x, Sym) and x.ty == "bytes")) else "str"
+        f = ufun("sort_lt_" + ty, zu.sort_of(ty), zu.sort_of(ty), zu.BoolS)
+        xt, yt = ip.to_z3(x, ty), ip.to_z3(y, ty)
+        ip.path.assume(z3.Or(z3.And(f(xt, yt), z3.Not(f(yt, xt)), xt != yt), z3.And(f(yt, xt), z3.Not(f(xt, yt)), xt != yt),
+                             z3.And(xt == yt, z3.Not(f(xt, yt)), z3.Not(f(yt, xt)))))
+        return ip.wrap(f(xt, yt), "bool")
+    return ip.compare_values(ast.Lt(), x, y)
 
 
 def _reduce(ip, a, k):
